@@ -44,6 +44,7 @@ class RelativeImport(Import):
         module_name: str | None,
         import_name: str | None,
         level: int,
+        internal_modules: set[str] | None = None,
     ) -> None:
         super().__init__(importer)
         if module_name is None and import_name is None:
@@ -52,6 +53,12 @@ class RelativeImport(Import):
             )
         self._module_name = module_name or import_name
         self._level = level
+
+        if module_name is not None and import_name is not None:
+            # "from .foo import bar" - bar could be a submodule of foo
+            self._module_name = f"{module_name}.{import_name}"
+            if self._calculate_importee() not in (internal_modules or set()):
+                self._module_name = module_name
 
         self._importee = self._calculate_importee()
 
